@@ -147,5 +147,24 @@ def bytearray_case(c):
 
 
 prove("bytearray with symbolic content", bytearray_case)
+def case_case(anchor, bits):
+    def body(c):
+        E = SymEnv(c)
+        off = E.bv("o", bits)
+        E.assume(off + anchor != 0x3A3)        # GREEK CAPITAL SIGMA: context-dependent, over-approximated by the model
+        ch = I.sx_chr(off + anchor)
+        lo, up = ch.lower(), ch.upper()
+        v = I.concretize_small(off, 0, (1 << bits) - 1)
+        if 0xD800 <= v + anchor <= 0xDFFF:
+            return
+        if v + anchor == 0x3A3:
+            return
+        E.check_eq(lo, chr(v + anchor).lower(), "lower")
+        E.check_eq(up, chr(v + anchor).upper(), "upper")
+    return body
+
+
+for anchor, bits in ((0, 8), (0x100, 8), (0x370, 7), (0x400, 7), (0x1e90, 4), (0x2120, 4), (0xfb00, 3), (0x10400, 6), (0x1e900, 6)):
+    prove("case mapping U+%04X.." % anchor, case_case(anchor, bits))
 print("FAILED: %s" % FAIL if FAIL else "all engine-model checks passed")
 sys.exit(1 if FAIL else 0)
